@@ -4472,7 +4472,8 @@ static void DecodeFRESTORE(Word Code) {
         tAdrResult AdrResult;
 
         if (DecodeAdr(
-                    &ArgStr[1], MModAdrI | MModPost | MModDAdrI | MModAIX | MModAbs,
+                    &ArgStr[1],
+                    MModAdrI | MModPost | MModDAdrI | MModAIX | MModPC | MModPCIdx | MModAbs,
                     &AdrResult)) {
             CodeLen     = 2 + AdrResult.Cnt;
             WAsmCode[0] = 0xf340 | AdrResult.Mode;
